@@ -104,6 +104,12 @@ C('outer_many', 'three', lambda g: (([tt(g, [2, 3]), tt(g, [3]), tt(g, [2, 2])],
 C('outer_many', 'empty', lambda g: (([],), {}))
 C('copy', 'tt', lambda g: ((tt(g),), {}))
 C('copy', 'array', lambda g: ((g.normal(size=(3, 4)),), {}), passthrough=False)
+C('copy', 'array-0d', lambda g: ((np.array(float(g.normal())),), {}),
+    passthrough=False)
+C('copy', 'array-0d-int', lambda g: ((np.array(int(g.integers(9))),), {}),
+    passthrough=False)
+C('copy', 'array-1elem', lambda g: ((g.normal(size=(1,)),), {}),
+    passthrough=False)
 C('copy', 'number', lambda g: ((3.5,), {}), passthrough=True)
 C('copy', 'none', lambda g: ((None,), {}), passthrough=True)
 C('interface', 'plain', lambda g: ((tt(g, [3, 4, 2]),), {}))
